@@ -310,6 +310,20 @@ const (
 	NumDerived
 )
 
+// DerivedApplies reports whether derived evaluation d is defined for results
+// of op kind k.
+func DerivedApplies(k, d int) bool {
+	switch k {
+	case OpDNS:
+		return d == DRewrites || d == DRewritesAll || d == DBasicRule
+	case OpWeb:
+		return d == DBasicResult || d == DCosmeticOption
+	case OpMatchAll:
+		return d == DNewMatchingResult || d == DBasicRule
+	}
+	return false
+}
+
 // Derived evaluates derived result d on r and renders it; "" if d does not
 // apply to this kind of result.
 func (r *Result) Derived(d int) string {
